@@ -86,6 +86,18 @@ CLAIMS = {
              "the region completely and omitted bars are painted as soon as they fit, the painted prefix being a function of the current lines only).",
         note="Abstract screen model; W <= 4, H <= 3, <= 3 lines; measure_text_width = byte length; terminals larger than the bound are outside the claim.",
         ref="4/C19"),
+    "C02": dict(
+        technique=K,
+        text="Logical order: from ANY state of the slot invariant of a MultiState with 2 slots (symbolic permutation of the slots, every split into live and "
+             "free) one real MultiState::insert at End / Index(p) / IndexFromBack(p) / After(anchor) / Before(anchor) (p in 0..=3, every live anchor) puts the "
+             "new bar at the documented position counted among the LIVE bars, keeps the relative order of the others, recycles the most recently freed slot "
+             "or allocates a fresh one, and preserves the invariant; remove_idx of any slot takes a live slot out of the order and resets it, removing a free "
+             "slot changes nothing. Being an inductive step, index reuse after removals is covered for histories of any length within the 2-slot bound.",
+        note="Partial: the CONTENT of the painted frame (every member once, in order, below the log; zombie reaping; alignment) needs MultiState::draw end to end, "
+             "which CBMC does not finish (tier `deep`); live-bar count and position argument are concrete per harness instance (Vec::insert at a symbolic index "
+             "exhausts memory); thread interleavings are not explored (Kani has no thread model): that every frame shows a state each bar really had rests on "
+             "the single RwLock write guard, whose discipline is C08's subject.",
+        ref="4/C02, 8.4"),
     "C03": dict(
         technique="MIR path analysis with SMT feasibility queries (z3 + cvc5): frame condition of skipped draws; painting draws by " + K,
         engine="mirsmt",
